@@ -105,8 +105,11 @@ Fixpoint ops_of (t : sx) : list bop :=
   | XPred k => [BPred k]
   | XState k => [BState k]
   | XNil => [BNil]
+  (* an empty literal is a nil node, an empty class is !nil (fix 10b1614; before it they pushed nothing) *)
+  | XLit [] | XILit [] => [BNil]
   | XLit cs => chain_ops BSequence (map char_ops cs)
   | XILit cs => chain_ops BSequence (map dchar_ops cs)
+  | XClass false _ [] => [BNil; BPeekNot]
   | XClass neg insens items =>
       chain_ops BAlternate (map (item_ops insens) items) ++ (if neg then [BPeekNot; BDot; BSequence] else [])
   | XSeq l => chain_ops BSequence (map ops_of l)
@@ -124,12 +127,11 @@ Fixpoint ops_of (t : sx) : list bop :=
 Definition elab (t : sx) : option expr :=
   match brun (ops_of t) [] with Some [e] => Some e | _ => None end.
 
-(** well-formed surface expressions: non-empty literals / classes / lists (the empty ones are the
-    known finding E1: '' "" [] push nothing) *)
+(** well-formed surface expressions: non-empty lists; a negated class has members ([^] is the class of '^') *)
 Fixpoint sx_ok (t : sx) : bool :=
   match t with
-  | XLit cs | XILit cs => negb (match cs with [] => true | _ => false end)
-  | XClass _ _ items => negb (match items with [] => true | _ => false end)
+  | XLit cs | XILit cs => true
+  | XClass neg _ items => negb (neg && match items with [] => true | _ => false end)
   | XSeq l => negb (match l with [] => true | _ => false end) && forallb sx_ok l
   | XAlt l _ => negb (match l with [] => true | _ => false end) && forallb sx_ok l
   | XAnd e | XNot e | XQuery e | XStar e | XPlus e | XPush e | XGroup e => sx_ok e
